@@ -1373,6 +1373,7 @@ func (c *Conn) doRequest(d *connDeadline, write func(time.Time, int32) error) (i
 	c.wlock.Lock()
 	c.correlationID++
 	id = c.correlationID
+	verifTrace("conn.req.begin", c, id)
 	err = write(d.setConnWriteDeadline(c.conn), id)
 	d.unsetConnWriteDeadline()
 	verifTrace("conn.req", c, id, err)
